@@ -496,7 +496,15 @@ def array_method(I, fr, b, name, args, kwargs, n):
                     fl2(x) if isinstance(x, ListV) else flat.append(x)
             fl2(b)
             return True, _array(flat, getattr(b, 'dtype', None))
+    if (isinstance(b, Elem) or (isinstance(b, ListV) and getattr(b, 'is_array', False))) and \
+            name in ARRAY_REDUCTIONS and 'numpy.' + name in I.native:
+        # a.mean() / a.prod() / a.sum(axis=0) ...: the method is the function of that name applied to the array
+        return True, I.call_native('numpy.' + name, fr, [b] + list(args), kwargs, n)
     return False, None
+
+
+ARRAY_REDUCTIONS = frozenset(('mean', 'prod', 'sum', 'std', 'var', 'cumsum', 'cumprod', 'argsort', 'dot', 'clip', 'any',
+                              'all', 'max', 'min', 'argmax', 'argmin', 'ptp', 'round', 'trace'))
 
 
 def install():
